@@ -2,7 +2,7 @@
   C09 — vector constructors, part A: `Multinomial::new` / `new_from_nalgebra`, `Dirichlet::new` /
   `new_from_nalgebra` / `new_with_param` (hand models in Statrs/Model/Multivariate.lean, tied to the
   Rust by the correspondence check).  Conventions as in Props/C09/ConstructorsA.lean; the
-  documented / implemented domains are in Statrs/Draft/C09/VectorDomain.lean.
+  documented / implemented domains are in Statrs/Spec/VectorDomain.lean.
 
   For each constructor:
     * `x_new_cases`        — the complete decision list, in the order the code checks, with the
@@ -25,7 +25,7 @@
     * `Dirichlet::new(vec![+∞, 1.0])` and `Dirichlet::new_with_param(+∞, 2)` are rejected although
       the `# Errors` sections list only `<= 0.0` and NaN.
 -/
-import Statrs.Draft.C09.VectorDomain
+import Statrs.Spec.VectorDomain
 import Statrs.Real.Simp
 import Statrs.Lemmas.Multivariate
 set_option linter.unusedSectionVars false
